@@ -248,10 +248,11 @@ class Corr:
         if self.T % 2 != 0:
             raise ValueError("Can not symmetrize odd T")
 
-        test = 1 * self
-        test.gamma_method()
-        if not all([o.is_zero_within_error(3) for o in test.content[0]]):
-            warnings.warn("Correlator does not seem to be anti-symmetric around x0=0.", RuntimeWarning)
+        if self.content[0] is not None:
+            test = 1 * self
+            test.gamma_method()
+            if not all([o.is_zero_within_error(3) for o in test.content[0]]):
+                warnings.warn("Correlator does not seem to be anti-symmetric around x0=0.", RuntimeWarning)
 
         newcontent = [self.content[0]]
         for t in range(1, self.T):
@@ -449,12 +450,13 @@ class Corr:
             return i
 
         for t in range(self.T):
+            if not periodic and (t + 2 * (N - 1)) >= self.T:
+                new_content[t] = None
+                continue
             for i in range(N):
                 for j in range(N):
                     if periodic:
                         new_content[t][i, j] = self.content[wrap(t + i + j)][0]
-                    elif (t + i + j) >= self.T:
-                        new_content[t] = None
                     else:
                         new_content[t][i, j] = self.content[t + i + j][0]
 
